@@ -41,7 +41,7 @@ PROPS["C12"] = dict(
 )
 
 PROPS["C09"] = dict(
-    producers=[("pyvc.wrapper_check", "wrapper_items")],
+    producers=[("pyvc.wrapper_check", "wrapper_items"), ("pyvc.table_check", "table_items")],
     level="proof",
     technique="contract-based deductive verification: ghost-window and partial-sum loop invariants on the real focal / convolution kernels (pyvc VCs -> z3, XR float model; reducers uninterpreted)",
     not_decided=[],
@@ -87,7 +87,7 @@ PROPS["C01"] = dict(
 )
 
 PROPS["C19"] = dict(
-    producers=[("pyvc.wrapper_check", "wrapper_items")],
+    producers=[("pyvc.wrapper_check", "wrapper_items"), ("pyvc.table_check", "table_items")],
     bounded=[("c19_distance_strings_and_sphere", {"quick": 15, "thorough": 90})],
     level="proof",
     technique="contract-based: postconditions on the real distance functions and _ellipse_kernel (pyvc VCs -> z3), metric lemmas (NRA/LRA) over the spec functions, NIA lemma inner ellipse within outer ellipse",
@@ -99,6 +99,7 @@ PROPS["C19"] = dict(
 )
 
 PROPS["C02"] = dict(
+    producers=[("pyvc.table_check", "table_items"), ("pyvc.table_check", "call_items")],
     level="proof",
     technique="contract-based: loop invariants on the real _strides and _calc_stats (pyvc VCs -> z3; reducers and NumPy mask-filter uninterpreted under assumed contracts); table-level statement bounded against a per-zone reference",
     not_decided=["np.argsort/np.unique/boolean-mask semantics (assumed NumPy contracts)", "assembly of the pandas/xarray result in _stats_numpy (bounded)"],
@@ -108,6 +109,7 @@ PROPS["C02"] = dict(
     bounded=[("c02_zonal_stats", {"quick": 30, "thorough": 300})],
 )
 PROPS["C04"] = dict(
+    producers=[("pyvc.table_check", "table_items")],
     level="proof",
     technique="contract-based: _strides post-condition (run ends of sorted categories) + running-offset invariant of _single_zone_crosstab_2d; table-level statement bounded against a direct contingency count",
     not_decided=["3-D aggregates of an empty cell set (max/min/mean of nothing) are degenerate and not claimed"],
@@ -116,6 +118,7 @@ PROPS["C04"] = dict(
     bounded=[("c04_crosstab", {"quick": 30, "thorough": 300})],
 )
 PROPS["C03"] = dict(
+    producers=[("pyvc.table_check", "table_items"), ("pyvc.table_check", "call_items")],
     level="proof",
     technique="contract-based: block-level contracts (_strides, _calc_stats with the global unique_zones) and combiner lemmas (sum/count/sum-of-squares -> mean/var/std; max/min) relative to the assumed Dask contracts; table equality bounded over independent chunkings",
     not_decided=["Dask delayed/from_delayed/to_delayed semantics (assumed)", "float rounding of sum/mean/std/var across blocks"],
